@@ -10,7 +10,7 @@ type pair struct{ r, c *Term }
 
 func TestCanonAgainstRaw(t *testing.T) {
 	rng := rand.New(rand.NewSource(12345))
-	for round := 0; round < 3000; round++ {
+	for round := 0; round < 6000; round++ {
 		raw := NewStore()
 		raw.Raw = true
 		can := NewStore()
@@ -43,7 +43,7 @@ func TestCanonAgainstRaw(t *testing.T) {
 			case 2:
 				lo := rng.Intn(w)
 				hi := lo + rng.Intn(w-lo)
-				v = (mask(hi-lo+1)) << uint(lo)
+				v = (mask(hi - lo + 1)) << uint(lo)
 			case 3:
 				v = mask(w)
 			default:
@@ -115,6 +115,9 @@ func TestCanonAgainstRaw(t *testing.T) {
 					continue
 				}
 				c := bools[rng.Intn(len(bools))]
+				if rng.Intn(2) == 0 {
+					x, y = konst(w), konst(w)
+				}
 				n = pair{raw.Ite(c.r, x.r, y.r), can.Ite(c.c, x.c, y.c)}
 			case 12:
 				n = pair{raw.BNot(x.r), can.BNot(x.c)}
